@@ -338,6 +338,57 @@ theorem views_agree (v : Variant) (w : Str → Str) (hw : ∀ s, w (w s) = w s) 
       · rw [hloc]
         exact server_reads_client_max pol w rq o.maxPdu post huv hpost hne hom
 
+/-- a list "starts clean" when `dropWhile p` leaves it alone -/
+theorem dropWhile_head {α : Type} (p : α → Bool) (l : List α) :
+    (l.dropWhile p = []) ∨ ∃ x xs, l.dropWhile p = x :: xs ∧ p x = false := by
+  induction l with
+  | nil => left; rfl
+  | cons a as ih =>
+    by_cases h : p a = true
+    · simp only [List.dropWhile_cons, h, ↓reduceIte]; exact ih
+    · right; exact ⟨a, as, by simp [h], by simpa using h⟩
+
+theorem dropWhile_prefix_clean {α : Type} (p : α → Bool) (u t : List α)
+    (hu : u = [] ∨ ∃ x xs, u = x :: xs ∧ p x = false) (ht : t <+: u) : t.dropWhile p = t := by
+  rcases hu with hu | ⟨x, xs, hu, hx⟩
+  · subst hu; simp at ht; subst ht; rfl
+  · subst hu
+    rcases List.prefix_cons_iff.mp ht with h | ⟨t', h, _⟩
+    · subst h; rfl
+    · subst h; simp [hx]
+
+theorem dropWhile_idem {α : Type} (p : α → Bool) (l : List α) :
+    (l.dropWhile p).dropWhile p = l.dropWhile p := by
+  rcases dropWhile_head p l with h | ⟨x, xs, h, hx⟩
+  · rw [h]; rfl
+  · rw [h]; simp [hx]
+
+/-- `str::trim` is idempotent: the wire hypothesis of `views_agree` holds for the reader's trimming -/
+theorem wireTrim_idem (s : Str) : wireTrim (wireTrim s) = wireTrim s := by
+  unfold wireTrim
+  have hpre : ((s.dropWhile isWs).reverse.dropWhile isWs).reverse <+: s.dropWhile isWs := by
+    have := List.dropWhile_suffix (l := (s.dropWhile isWs).reverse) isWs
+    rw [← List.reverse_prefix] at this
+    simpa using this
+  have h1 := dropWhile_prefix_clean isWs _ _ (by
+    rcases dropWhile_head isWs s with h | h
+    · exact .inl h
+    · exact .inr h) hpre
+  rw [h1, List.reverse_reverse, dropWhile_idem]
+
+/-- `views_agree` for the actual reader (`str::trim` on every text field): no wire hypothesis left -/
+theorem views_agree_trim (v : Variant) (impl : Impl)
+    (o : ClientOpts) (ae : Option Str) (cfg : Config) (reg : List Str) (pol : Policy)
+    (sv : ServerView) (cv : ClientView)
+    (hn : o.contexts.length ≤ 128)
+    (hst : ∀ c ∈ o.contexts, trimUid (wireTrim c.1) = c.1)
+    (hom : o.maxPdu ≤ MAXIMUM_PDU_SIZE) (hcm : cfg.maxPdu ≠ 0 ∧ cfg.maxPdu ≤ MAXIMUM_PDU_SIZE)
+    (h : associate v wireTrim impl o ae cfg reg pol = .ok ⟨.ok sv, .ok cv⟩) :
+    cv.contexts.map Negotiated.triple = (sv.contexts.filter accepted).map Negotiated.triple ∧
+    cv.peerMaxPdu = sv.localMaxPdu ∧ sv.peerMaxPdu = cv.localMaxPdu :=
+  let r := views_agree v wireTrim wireTrim_idem impl o ae cfg reg pol sv cv hn hst hom hcm h
+  ⟨r.1, r.2.1, r.2.2.1⟩
+
 /-! ### PDU size limit -/
 
 /-- **never_longer_than_peer_max** (one PDU): `encode_pdu` hands out exactly what the writer
